@@ -1,6 +1,8 @@
 use noodles_bgzf as bgzf;
 use tokio::io::{self, AsyncRead, AsyncReadExt};
 
+const MAX_PREALLOCATED_LEN: usize = 1 << 12;
+
 pub(super) async fn read_intervals<R>(reader: &mut R) -> io::Result<Vec<bgzf::VirtualPosition>>
 where
     R: AsyncRead + Unpin,
@@ -10,7 +12,9 @@ where
         usize::try_from(n).map_err(|e| io::Error::new(io::ErrorKind::InvalidData, e))
     })?;
 
-    let mut intervals = Vec::with_capacity(interval_count);
+    // The count is read from the input and is not yet validated, i.e., only a limited capacity is
+    // preallocated, and the collection grows as entries are read.
+    let mut intervals = Vec::with_capacity(interval_count.min(MAX_PREALLOCATED_LEN));
 
     for _ in 0..interval_count {
         // ioff
